@@ -79,7 +79,7 @@ pub fn gen_c18(batch: &str, rng: &mut Rng) -> ProgCase {
         for o in b.iter_mut() {
             if let Op::SemCancel(sm, _, polls) = o {
                 if !sems[*sm].1 {
-                    *polls = 1;
+                    *polls = 1; // (0 and 2 keep the Acquire alive across a scheduling point)
                 }
             }
         }
